@@ -293,5 +293,35 @@ pub fn count_decorations(s: &crate::session::Session, ctr: &mut Ctr) {
         if r.role.contains("migrating") {
             bump(ctr, "fault.replica_migrating_between_threads");
         }
+        if r.role.contains("parking") {
+            bump(ctr, "fault.replica_parked_mid_document_while_next_runs");
+        }
     }
+}
+
+/// Interleaving: with some probability one replica (not the last) gets a park point inside one of its deliveries;
+/// the replica after it then runs while the first is stopped mid-document (see session::run_session).
+pub fn maybe_park(rng: &mut Rng, replicas: &mut [crate::session::Replica], pct: u32, len_of: &dyn Fn(&crate::session::Input) -> usize) {
+    if replicas.len() < 2 || !rng.pct(pct) {
+        return;
+    }
+    let i = rng.below(replicas.len() - 1);
+    let r = &mut replicas[i];
+    if r.steps.is_empty() || r.role.contains("migrating") {
+        return;
+    }
+    let k = rng.below(r.steps.len());
+    let plan = &mut r.steps[k].plan;
+    if plan.slice {
+        *plan = crate::simreader::Plan::whole();
+    }
+    if plan.cuts.is_empty() {
+        // the document must arrive in pieces, or the only places to stop are before its first and after its last byte
+        let len = len_of(&r.steps[k].input);
+        let n = rng.range(5, 60);
+        plan.cuts = (1..len).filter(|i| i % n == 0).collect();
+    }
+    let plan = &mut r.steps[k].plan;
+    plan.park_at = Some(rng.below(plan.cuts.len() + 2));
+    r.role = format!("parking-{}", r.role);
 }
